@@ -229,6 +229,43 @@ static void incremental_items(void)
     t_end("random-seed");
 }
 
+/* refusal and failure paths of every function that has one: they must return the documented result and leave nothing behind
+ * (in the checker configurations an unbalanced acquire on such a path aborts at the next library call) */
+static int c09_fail_read(const ascon_storage_t *s, size_t off, unsigned char *d, size_t n) { (void)s; (void)off; (void)d; (void)n; return -1; }
+static int c09_fail_write(const ascon_storage_t *s, size_t off, const unsigned char *d, size_t n, int erase) { (void)s; (void)off; (void)d; (void)n; (void)erase; return -1; }
+static void refusal_items(void)
+{
+    uint8_t o[200], c[96], p[96]; size_t l; int r;
+    r = ascon_prf_short(o, 16, MSG, 17, K); t_int(r); if (r != -1) hx_fail("refusal", "prf_short with 17 input bytes returned %d", r);
+    r = ascon_prf_short(o, 17, MSG, 16, K); t_int(r); if (r != -1) hx_fail("refusal", "prf_short with 17 output bytes returned %d", r);
+    ascon_hash(o, MSG, 3); t_add(o, 32);
+    { static uint8_t big[8200]; r = ascon_hkdf(big, 8161, K, 16, N, 16, ADB, 3); t_int(r); if (r == 0) hx_fail("refusal", "hkdf with 8161 output bytes returned 0"); r = ascon_hkdfa(big, 8192, K, 16, 0, 0, 0, 0); t_int(r);
+      ascon_hkdf_state_t h; ascon_hkdf_extract(&h, K, 16, N, 16); r = ascon_hkdf_expand(&h, ADB, 3, big, 8150); t_int(r); r = ascon_hkdf_expand(&h, ADB, 3, big, 20); t_int(r); r = ascon_hkdf_expand(&h, ADB, 3, big, 1); t_int(r); ascon_hkdf_free(&h);
+      ascon_hkdfa_state_t ha; ascon_hkdfa_extract(&ha, K, 16, N, 16); r = ascon_hkdfa_expand(&ha, ADB, 3, big, 8161); t_int(r); ascon_hkdfa_free(&ha); }
+    ascon_hasha(o, MSG, 3); t_add(o, 32);
+    for (int alg = 0; alg < 3; alg++) {
+        /* forged tag, and a packet shorter than the tag, through every decryption entry point */
+        api_aead_enc[alg](c, &l, MSG, 21, ADB, 5, N, K); c[l - 1] ^= 1;
+        r = api_aead_dec[alg](p, &l, c, 37, ADB, 5, N, K); t_int(r); r = api_aead_dec[alg](p, &l, c, 15, ADB, 5, N, K); t_int(r);
+        { api_inc_state st; api_inc_init[alg](&st, N, K); api_inc_start[alg](&st, ADB, 5); api_inc_dec[alg](&st, c, p, 21); r = api_inc_decfin[alg](&st, c + 21); t_int(r); api_inc_start[alg](&st, 0, 0); api_inc_enc[alg](&st, MSG, p, 3); api_inc_encfin[alg](&st, p + 3); t_add(p, 19); api_inc_free[alg](&st); }
+        { api_masked_key mk; api_masked_key_init(alg, &mk, K); r = api_masked_dec[alg](p, &l, c, 37, ADB, 5, N, &mk); t_int(r); r = api_masked_dec[alg](p, &l, c, 9, ADB, 5, N, &mk); t_int(r); api_masked_enc[alg](p, &l, MSG, 3, 0, 0, N, &mk); t_add(p, 19); api_masked_key_free(alg, &mk); }
+        api_siv_enc[alg](c, &l, MSG, 21, ADB, 5, N, K); c[3] ^= 1; r = api_siv_dec[alg](p, &l, c, 37, ADB, 5, N, K); t_int(r); r = api_siv_dec[alg](p, &l, c, 15, ADB, 5, N, K); t_int(r);
+        { api_isap_key pk; api_isap_init[alg](&pk, K); api_isap_enc[alg](c, &l, MSG, 21, ADB, 5, N, &pk); c[30] ^= 4; r = api_isap_dec[alg](p, &l, c, 37, ADB, 5, N, &pk); t_int(r); r = api_isap_dec[alg](p, &l, c, 0, ADB, 5, N, &pk); t_int(r);
+          api_isap_enc[alg](c, &l, MSG, 2, 0, 0, N, &pk); t_add(c, 18); api_isap_free[alg](&pk); }
+        for (int fam = 0; fam < 4; fam++) { cpp_encrypt(fam, alg, K, N, c, MSG, 9, ADB, 2); c[9] ^= 1; r = cpp_decrypt(fam, alg, K, N, p, c, 25, ADB, 2); t_int(r); r = cpp_decrypt(fam, alg, K, N, p, c, 7, ADB, 2); t_int(r); }
+        ascon_xof(o, MSG, 5); t_add(o, 32);
+    }
+    { uint8_t tag[16]; ascon_mac(tag, MSG, 9, K); tag[15] ^= 1; r = ascon_mac_verify(tag, MSG, 9, K); t_int(r); }
+    { uint8_t b[8]; r = ascon_bytes_from_hex(b, 8, "012", 3); t_int(r); r = ascon_bytes_from_hex(b, 1, "0102", 4); t_int(r); r = ascon_bytes_from_hex(b, 8, "zz", 2); t_int(r); char h[8]; r = ascon_bytes_to_hex(h, 4, MSG, 2, 0); t_int(r); }
+    /* failing system source and failing storage */
+    { ascon_random_state_t rs; sysrand_reset(5); sysrand_fail_mask = ~(uint64_t)0; r = ascon_random_init(&rs); t_int(r); ascon_random_fetch(&rs, o, 20); r = ascon_random_reseed(&rs); t_int(r); r = ascon_random(o, 9); t_int(r);
+      ascon_storage_t stg; memset(&stg, 0, sizeof stg); stg.page_size = 1; stg.size = 64; stg.read = c09_fail_read; stg.write = c09_fail_write;
+      r = ascon_random_save_seed(&rs, &stg); t_int(r); r = ascon_random_load_seed(&rs, &stg); t_int(r); stg.size = 8; r = ascon_random_save_seed(&rs, &stg); t_int(r); r = ascon_random_load_seed(&rs, &stg); t_int(r);
+      r = ascon_random_save_seed(0, &stg); t_int(r); r = ascon_random_load_seed(&rs, 0); t_int(r); ascon_random_free(&rs); sysrand_fail_mask = 0; sysrand_reset(6); }
+    ascon_hash(o, MSG, 1); t_add(o, 32);
+    t_end("refusals");
+}
+
 static void misc_items(void)
 {
     /* permutation API */
@@ -315,7 +352,7 @@ int main(int argc, char **argv)
     } else if (argc >= 2 && !strcmp(argv[1], "nlive")) {
         printf("NLIVE %d\n", NLK);
     } else {
-        aead_items(); hash_items(); incremental_items(); misc_items();
+        aead_items(); hash_items(); incremental_items(); refusal_items(); misc_items();
         hx_sample("transcript of %lld item groups over AEAD x4 entries, SIV, ISAP, hash/XOF/cXOF, PRF/MAC, HMAC, KMAC, KDF, HKDF, PBKDF2, permutation API, nonce/hex helpers, masked keys, PRNG", *hx_statp("items"));
     }
     hx_finish();
